@@ -182,7 +182,7 @@ static std::string doTrain(std::vector<std::string> const& t){
 	trainer.sparsify() = false;
 	trainer.shrinking() = shrink;
 	trainer.stoppingCondition().minAccuracy = eps;
-	trainer.stoppingCondition().maxIterations = 2000000ULL;
+	trainer.stoppingCondition().maxIterations = 300000ULL;
 	if(cache < 0) trainer.precomputeKernel() = true; else trainer.setCacheSize((std::size_t)cache);
 	KernelClassifier<RealVector> svm;
 	trainer.train(svm, data);
@@ -211,7 +211,7 @@ static std::string doTrain(std::vector<std::string> const& t){
 		// two-class reduction: every formulation must give exactly the plain binary machine
 		CSvmTrainer<RealVector, double> bin(kernel, C, bias);
 		bin.sparsify() = false; bin.shrinking() = shrink;
-		bin.stoppingCondition().minAccuracy = eps; bin.stoppingCondition().maxIterations = 2000000ULL;
+		bin.stoppingCondition().minAccuracy = eps; bin.stoppingCondition().maxIterations = 300000ULL;
 		if(cache < 0) bin.precomputeKernel() = true; else bin.setCacheSize((std::size_t)cache);
 		KernelClassifier<RealVector> bsvm; bin.train(bsvm, data);
 		RealMatrix const& B = bsvm.decisionFunction().alpha();
@@ -235,7 +235,7 @@ static std::string doTrain(std::vector<std::string> const& t){
 			ClassificationDataset bd = oneVersusRestProblem(data, c);
 			CSvmTrainer<RealVector, double> bin(kernel, C, bias);
 			bin.sparsify() = false; bin.shrinking() = shrink;
-			bin.stoppingCondition().minAccuracy = eps; bin.stoppingCondition().maxIterations = 2000000ULL;
+			bin.stoppingCondition().minAccuracy = eps; bin.stoppingCondition().maxIterations = 300000ULL;
 			if(cache < 0) bin.precomputeKernel() = true; else bin.setCacheSize((std::size_t)cache);
 			KernelClassifier<RealVector> bsvm; bin.train(bsvm, bd);
 			RealMatrix const& B = bsvm.decisionFunction().alpha();
